@@ -1187,3 +1187,52 @@ func (c *Ctx) ResponsesDoc() *Doc {
 	}
 	return d
 }
+
+// AddCaseTwins gives up to three component schemas a twin whose key differs in the case
+// of its first letter only and whose schema is of another kind (component keys are
+// case-sensitive: Limit and limit are two components). The twins are referenced by
+// nothing; every $ref of the document must keep reaching the component it names.
+func AddCaseTwins(t *rapid.T, d *Doc) int {
+	if d == nil || d.Components == nil || len(d.Components.Schemas) == 0 || rapid.IntRange(0, 2).Draw(t, "case_twins") != 0 {
+		return 0
+	}
+	names := SortedKeys(d.Components.Schemas)
+	k := rapid.IntRange(1, min(3, len(names))).Draw(t, "n_case_twins")
+	n := 0
+	for _, name := range rapid.SliceOfNDistinct(rapid.SampledFrom(names), k, k, rapid.ID[string]).Draw(t, "case_twin_of") {
+		twin := strings.ToLower(name[:1]) + name[1:]
+		if twin == name {
+			twin = strings.ToUpper(name[:1]) + name[1:]
+		}
+		if _, taken := d.Components.Schemas[twin]; taken || twin == name {
+			continue
+		}
+		orig := d.Components.Schemas[name]
+		prim := orig.Ref == "" && (orig.Type == "string" || orig.Type == "integer" || orig.Type == "number" || orig.Type == "boolean")
+		var other *Schema
+		switch {
+		case prim && orig.Type == "string":
+			other = &Schema{Type: "integer", Format: "int32"}
+		case prim:
+			other = &Schema{Type: "string"}
+		default:
+			prop := fmt.Sprintf("twinOnly%d", n)
+			other = &Schema{Type: "object", Properties: map[string]*Schema{prop: {Type: "integer", Format: "int32"}}, Required: []string{prop}}
+		}
+		// for a primitive component half of the time the other way round: the document's
+		// references go to the new key and the old key holds the schema of another kind
+		if prim && rapid.Bool().Draw(t, "case_twin_takes_the_references") {
+			text := strings.ReplaceAll(string(d.JSON()), `"`+RefSchemas+name+`"`, `"`+RefSchemas+twin+`"`)
+			if nd, err := ParseDoc([]byte(text)); err == nil {
+				*d = *nd
+				d.Components.Schemas[twin] = d.Components.Schemas[name]
+				d.Components.Schemas[name] = other
+				n++
+				continue
+			}
+		}
+		d.Components.Schemas[twin] = other
+		n++
+	}
+	return n
+}
